@@ -89,8 +89,10 @@ impl PhoneticSuggestion {
                     let key = &middle[..(middle.len() - suffix_key.len())];
                     if let Some(cache) = self.cache.get(key) {
                         for base in cache {
-                            let base_rmc = base.to_string().chars().last().unwrap(); // Right most character.
-                            let suffix_lmc = suffix.chars().next().unwrap(); // Left most character.
+                            // Right most character of the base and left most character of the suffix.
+                            // (A user defined auto correct entry or a suffix may be empty.)
+                            let base_rmc = base.to_string().chars().last().unwrap_or_default();
+                            let suffix_lmc = suffix.chars().next().unwrap_or_default();
                             let mut word = String::with_capacity(middle.len() * 3);
                             word.push_str(base.to_string());
                             match base_rmc {
@@ -265,8 +267,9 @@ impl PhoneticSuggestion {
                     let key = &string.word()[..len - test.len()];
 
                     if let Some(base) = selections.get(key) {
-                        let rmc = base.chars().last().unwrap();
-                        let suffix_lmc = suffix.chars().next().unwrap();
+                        // A stored selection may be empty (e.g. a punctuation only candidate).
+                        let rmc = base.chars().last().unwrap_or_default();
+                        let suffix_lmc = suffix.chars().next().unwrap_or_default();
                         selected.push_str(base);
 
                         match rmc {
